@@ -551,6 +551,8 @@ class StmtMixin:
             self.st.pc.append(i < size)
             if not self.feasible():
                 raise PathEnd()
+            # the index of this loop stays visible to the invariants of loops nested in its body, as _i<ordinal>
+            self.st.env[f"_i{k}"] = SV(i, T.INT)
             # current element: the one at position i
             cur = self.element_at(src, var, dom, el, pos, i)
             self.st.env.update(self.bind_target(st.target, cur))
@@ -605,6 +607,14 @@ class StmtMixin:
             _, order, _ = self.dict_order(src.d, src.sorted_)
             key = z3.Select(order, i)
             kc = self.w.fresh_sort(key.sort(), "key")
+            self.st.pc.append(kc == key)
+            self.st.pc.append(z3.substitute(dom, (var, kc)))
+            self.st.pc.append(z3.substitute(pos, (var, kc)) == i)
+            return self._subst_value(el, var, kc)
+        if isinstance(src, SV) and src.ty.kind == "set":
+            _, order, _ = self._keyset_order(src.term, self.w.sort(src.ty.args[0]), "set")
+            key = z3.Select(order, i)
+            kc = self.w.fresh_sort(key.sort(), "member")
             self.st.pc.append(kc == key)
             self.st.pc.append(z3.substitute(dom, (var, kc)))
             self.st.pc.append(z3.substitute(pos, (var, kc)) == i)
